@@ -558,7 +558,6 @@ func (cpu *CPU) cmdRead16() uint16 {
 		m_Absolute_X,
 		m_Absolute_Y,
 		m_DP_Indirect_Y,
-		m_Absolute_X_Indirect,
 		m_Stack_Relative_Indirect_Y:
 		ll := cpu.Bus.EaRead(cpu.StepInfo.EA)                    // todo - zastapic to jakos?
 		hh := cpu.Bus.EaRead((cpu.StepInfo.EA + 1) & 0x00ffffff) // wrap on 24bits
@@ -568,6 +567,10 @@ func (cpu *CPU) cmdRead16() uint16 {
 		m_DP_X_Indirect,
 		m_DP_Indirect:
 		return cpu.nRead16_cross(cpu.RDBR, cpu.StepInfo.Addr)
+
+	case m_Absolute_X_Indirect:
+		// the pointer lives in the program bank and wraps inside it
+		return cpu.nRead16_wrap(cpu.RK, uint16(cpu.StepInfo.EA))
 
 	default:
 		//fmt.Fprintf(&cpu.LogBuf, "cmdRead16: unknown Mode %v\n", cpu.StepInfo.Mode)
